@@ -19,6 +19,11 @@ CLAIMS = {
   text="Machine-checked proofs over the line state machine model, for every configuration: outside a diff (before the first construct or in commit metadata) a line that begins with none of the construct-opening markers is emitted unchanged and leaves the machine where it is (C04_passthrough_line); a block of such lines extends the rendered history by exactly those lines, in order (C04_passthrough_block). On the real binary raw bytes are compared (no terminal decoding): pure text streams with embedded SGR sequences, CR variants, tabs and Unicode come out byte-identical up to the three permitted normalisations; text before diffs and commit messages between commits appear unchanged, whole-line and in order, under 18 option sets.",
   note="Trusted: Coq kernel; harness; the model does not distinguish raw from stripped lines (the byte-level claim, incl. colours, is decided on the implementation); blame-like, JSON-like and grep-like lines are construct openers and excluded from the generated text. No axioms.",
   design="§6 C04"),
+ "C08": dict(
+  technique="Coq proof over the escape-sequence parser table regenerated from the linked crate (plain text kept, SGR sequences invisible and state-restoring, strip(colourise t) = t) + white-box strip correspondence + bytewise coloured-vs-plain output and moved-line rendition oracle",
+  text="Machine-checked proofs over a model of what ansi::strip_ansi_codes keeps, driven by the transition table of anstyle-parse that the translator dumps from the hook-enabled binary on every run (GenVte.v): valid UTF-8 text without ESC is kept byte for byte (C08_plain_text_kept), an SGR sequence contributes no text and returns the parser to the ground state (C08_sgr_invisible), hence for every text and every insertion of SGR sequences at character boundaries the stripped line is the plain text (C08_strip_colourise) — delta parses, measures, pairs and highlights the same line whether or not git coloured it. Tie: strip_ansi_codes through the hook driver equals the extracted model on coloured lines and on malformed / ignored / aborted sequences. Oracle on the binary: stdout for a diff coloured as git does with its default palette is byte-identical to stdout for the plain diff under 12 modes; changed lines in random non-default SGR renditions (moved-line colours) are shown in exactly the input's rendition, or in the style map-styles assigns.",
+  note="Trusted: Coq kernel; translator D-vte (table dump hook) — a different parser crate changes GenVte.v and the finite table lemmas are re-checked; harness; the claim that the state machine reads only the stripped line (except raw styles / moved colours) is decided by the bytewise oracle. A `Binary files A and B differ` line of a name-less section is passed through verbatim with its colours (C04 semantics) and is outside the equal-output stream. No axioms.",
+  design="§6 C08"),
  "C09": dict(
   technique="Coq proof (ansi_term ANSIStrings decoded by an independent SGR interpreter: every styled string shown in its style, terminal ends in the default rendition; reset-terminated lines; composition) + white-box ANSIStrings / truncate_str correspondence + terminal-state oracle at every newline of the binary's stdout",
   text="Machine-checked proofs: for every list of styled strings ansi_term's ANSIStrings output decodes, in an independently written SGR interpreter, to exactly those strings in exactly their styles and leaves the terminal in the default rendition, from the default or from any previous rendition (C09_ansistrings_balanced, C09_strings_tail_balanced); a line ending with a reset ends in the default rendition whatever precedes (background fill, C09_reset_terminated); balanced pieces compose (C09_balanced_concat). Tie: ANSIStrings through the hook driver equals the extracted model byte for byte on random multi-segment lines; truncate_str through the driver keeps every escape sequence whole with the cut at every offset. Oracle: an independent terminal model is stepped over the binary's stdout for generated diffs (incl. raw lines carrying balanced SGR / OSC 8 sequences longer than the panel or max-line-length) under 22 mode sets, on a pipe and on a pty: at every newline the rendition is the default, no OSC 8 link is open and no sequence is cut.",
